@@ -334,13 +334,46 @@ def upper_bound_tight(ctx, prog):
                            "`P'++[b+1]++[0xFF..]` admits the members of the neighbouring key `P'++[b+1]..` into the scan of this key")
 
 
+def column_kind_agreement(ctx, prog, modfile, tag):
+    """The keyspace / column family of a column is named after its id *and its kind*; every site of one family must ask for
+    the same kind, else a write goes to `…wide_column_<id>` while the reads look in `…key_of_set_<id>` (and a handle cache
+    keyed by id alone may even pin the wrong one for the whole process)."""
+    o = ctx.ob("C11.d", "%s/column-kind-per-site-family" % tag, "K8",
+               "put/delete/get_wide_column address ColumnKind::WideColumn, insert_member/delete_member/scan_members address ColumnKind::KeyOfSet")
+    adt = next((k for k in prog.adts if k.endswith("kv_database::%s::ColumnKind" % modfile)), None)
+    if adt is None:
+        ctx.fail(o, "(program)", "anchor missing: %s::ColumnKind" % modfile)
+        return
+    names = [v["name"] for v in prog.adts[adt]["variants"]]
+    n = 0
+    for b in prog.all_bodies(["qbice_storage"]):
+        if not b.file.endswith("kv_database/%s.rs" % modfile):
+            continue
+        base = re.sub(r"(::\{closure#\d+\})+$", "", b.name).rsplit("::", 1)[-1]
+        want = "WideColumn" if base in ("put", "delete", "get_wide_column") else "KeyOfSet" if base in ("insert_member", "delete_member", "scan_members") else None
+        if want is None:
+            continue
+        for a in b.assigns(lambda st: st["rv"]["k"] == "agg" and st["rv"].get("ak") == "adt" and st["rv"].get("adt") == adt):
+            n += 1
+            ctx.touch(b)
+            got = names[int(a.node["rv"]["variant"])]
+            if got != want:
+                ctx.fail(o, a, "%s addresses the column as ColumnKind::%s (its family uses ColumnKind::%s): the operation lands in another keyspace / column family "
+                         "than the one its readers use" % (b.name, got, want))
+    o.sites = n
+    if n < 9:
+        ctx.fail(o, "(program)", "expected >= 9 ColumnKind arguments at the %s column sites, found %d" % (tag, n))
+
+
 def run(ctx):
     prog = ctx.prog
     ctx.run_clause("C11.a", lambda c: backend_rules(c, prog, "Fjall", "Fjall", "fjall", "fjall"))
     ctx.run_clause("C11.b", lambda c: discriminant_table(c, prog))
+    ctx.run_clause("C11.d", lambda c: column_kind_agreement(c, prog, "fjall", "fjall"))
     try:
         rocks = ctx.program("rocks")
     except Exception as e:  # EngineError is reported by the caller
         raise
     ctx.run_clause("C11.a", lambda c: backend_rules(c, rocks, "RocksDB", "RocksDB", "rocksdb", "rocksdb"))
     ctx.run_clause("C11.e", lambda c: upper_bound_tight(c, rocks))
+    ctx.run_clause("C11.d", lambda c: column_kind_agreement(c, rocks, "rocksdb", "rocksdb"))
